@@ -8,7 +8,7 @@ import random
 
 import yaml
 
-FAMILIES = ["classic", "transport", "buffers", "setup", "outage", "stoch", "bigids", "shifted", "mixed"]
+FAMILIES = ["classic", "transport", "buffers", "setup", "outage", "stoch", "bigids", "shifted", "mixed", "ordered"]
 
 
 def job_matrix(rnd, nj, nm, dmin=1, dmax=9, classic=True):
@@ -99,11 +99,13 @@ def gen_instance(rnd, family):
     def want(f, p_in, p_out=0.12):
         return rnd.random() < (p_in if family in (f, "mixed") else p_out)
 
-    transport = family in ("transport", "buffers", "outage", "mixed", "stoch") and rnd.random() < 0.9 or want("transport", 1.0, 0.25)
+    transport = family in ("transport", "buffers", "outage", "mixed", "stoch", "ordered") and rnd.random() < 0.9 or want("transport", 1.0, 0.25)
+    if family == "ordered":
+        transport = True
     n_agv = None
     if transport:
         feats.add("transport")
-        n_agv = rnd.choice([1, 1, 2, nj, nj + 1])
+        n_agv = rnd.choice([1, 1, 2, nj, nj + 1]) if family != "ordered" else rnd.choice([2, 2, 3])
         names, M = travel_matrix(rnd, nm, zeros=rnd.choice([0.0, 0.15, 0.4]), sym=rnd.random() < 0.3)
         lg = {"type": "agv", "amount": n_agv, "specification": matrix_text(names, M)}
         if want("stoch", 0.7, 0.05):
@@ -112,7 +114,12 @@ def gen_instance(rnd, family):
         ic["logistics"] = lg
     meta["n_agv"] = n_agv if n_agv is not None else nj
 
-    if want("buffers", 0.9, 0.1):
+    if family == "ordered":
+        feats.add("buffers")
+        ic["machines"] = {"prebuffer": [{"type": rnd.choice(BUF_TYPES), "capacity": nj + 1}],
+                          "postbuffer": [{"type": rnd.choice(["fifo", "lifo", "fifo", "lifo", "dummy"]), "capacity": nj + 1}]}
+        meta["bigcap"] = True
+    elif want("buffers", 0.9, 0.1):
         feats.add("buffers")
         caps = [1, 2, nj, nj + 2]
         big = rnd.random() < 0.7  # inside the C11 class: every buffer holds all jobs
@@ -201,7 +208,7 @@ def gen_instance(rnd, family):
 
 def gen_cfg(rnd, meta):
     c = {
-        "allow_early": rnd.random() < 0.6,
+        "allow_early": rnd.random() < (0.6 if meta["family"] != "ordered" else 0.85),
         "joker": rnd.choice([0, 1, 3, 5]),
         "trunc_active": rnd.random() < 0.5,
         "obs": "BinaryActionObservationFactory" if rnd.random() < 0.8 else "BinaryOperationArrayObservation",
@@ -212,11 +219,13 @@ def gen_cfg(rnd, meta):
     return c
 
 
-POLICIES = ["accept", "bernoulli", "decline_heavy", "prefer_agv", "decline_machine", "alternate", "multi"]
+POLICIES = ["accept", "bernoulli", "decline_heavy", "prefer_agv", "decline_machine", "alternate", "multi", "pileup"]
 
 
-def gen_policy(rnd):
+def gen_policy(rnd, family=None):
     k = rnd.choice(POLICIES + ["bernoulli", "accept"])
+    if family == "ordered" and rnd.random() < 0.6:
+        k = "pileup"
     return {"kind": k, "p": rnd.choice([0.5, 0.7, 0.9]), "seed": rnd.randrange(1 << 30)}
 
 
@@ -233,7 +242,7 @@ def gen_scenario(seed, family=None):
         "doc": doc,
         "meta": meta,
         "cfg": cfg,
-        "policy": gen_policy(rnd),
+        "policy": gen_policy(rnd, family),
         "max_steps": 600 if family != "bigids" else 250,
         "probes": {"invalid": rnd.random() < 0.3, "c20": rnd.random() < 0.3, "reset": rnd.random() < 0.3,
                    "envfail": rnd.random() < 0.2},
@@ -264,6 +273,22 @@ class Policy:
         if not offers:
             return 1
         o = offers[0]
+        if k == "pileup":
+            # let finished jobs pile up in post-buffers, then call AGVs for buried jobs first
+            import jobshoplab.utils.state_machine_utils.buffer_type_utils as B
+            st = env.state.state
+            if o.component_id.startswith("m"):
+                return 1
+            job = next(j for j in st.jobs if j.id == o.job_id)
+            try:
+                ready = B.is_job_ready_for_pickup_from_postbuffer(job, st, env.instance)
+            except Exception:
+                ready = True
+            piled = any(len(m.postbuffer.store) >= 2 for m in st.machines)
+            if not piled:
+                # early calls for jobs that are still being processed help piling up
+                return 1 if (not ready and self.rnd.random() < 0.3) else (1 if self.rnd.random() < 0.1 else 0)
+            return 1 if (not ready or self.rnd.random() < 0.5) else 0
         if k == "prefer_agv":
             return 1 if o.component_id.startswith("t") or self.rnd.random() < 0.3 else 0
         if k == "decline_machine":
